@@ -65,7 +65,7 @@ class DocEngine:
         self.n_faults = 0
         self.shadow = None  # the original left behind by clone_swap
         self.twin = None  # C10: (DocSUT) the other twin
-        self.twin_snap = None
+        self.n_twin_ops = 0
 
     def close(self):
         try:
@@ -92,6 +92,8 @@ class DocEngine:
         return h.hexdigest()[:16]
 
     def nontrivial(self):
+        if self.prop == "C10":
+            return self.n_twin_ops >= 2
         return self.n_saves >= 1 and (self.n_edits >= 1 or self.n_reopen >= 1)
 
     # ------------------------------------------------------------ generators
@@ -121,6 +123,10 @@ class DocEngine:
                    ("reopen", (6 * cfg["p_reopen"]) if self._reopenable() else 0)]
         if self.prop in ("C04", "C03"):
             weights += [("clone_swap", 1), ("merge_styles", 1 if self.prop == "C04" else 0), ("save_other", 2 if self.shadow else 0)]
+        if self.prop == "C10":
+            if self.twin is None and rng.chance(0.45, "clone?"):
+                return {"op": "clone_doc"}
+            weights += [("clone_part", 2), ("clone_container", 1), ("twin_save_over_source", 1.5 if (self.twin is not None and self.sut.src.get("path") and self.sut.src["packaging"] == "zip") else 0)]
         if self.prop == "C11":
             weights = [("touch", 10 * cfg["p_touch"]), ("edit", 3), ("rich_para", 6), ("add_file", 1), ("save_set", 10 * cfg["p_save"] if self.n_saves < cfg["max_saves"] else 0),
                        ("reopen", (3 * cfg["p_reopen"]) if self._reopenable() else 0)]
@@ -186,9 +192,14 @@ class DocEngine:
             op["variants"] = [{"packaging": pk, "pretty": pr, "target": ("bytesio" if pk != "folder" and rng.chance(0.5, "vt") else "path")} for pk, pr in rng.sample(variants, k, "variants")]
             if rng.chance(self.cfg["p_fault"], "fault?"):
                 op["fault"] = {"site": rng.choice(["writestr", "write_bytes", "bytesio_write", "mkdir", "rmtree"], "fsite"), "k": rng.randint(1, 10, "fk"), "errno": rng.choice(["ENOSPC", "EIO"], "ferr"), "partial": rng.chance(0.5, "fpartial"), "at": rng.randint(0, k - 1, "fat")}
+        elif name == "clone_part":
+            op["part"] = rng.choice(["content", "meta", "styles", "manifest"], "cpart")
+            op["n"] = n
         elif name == "clone_swap":
             pass
-        elif name == "merge_styles":
+        if self.prop == "C10" and self.twin is not None and name not in ("clone_doc", "twin_save_over_source", "reopen") and rng.chance(0.5, "on"):
+            op["on"] = "twin"
+        if name == "merge_styles":
             op["src"] = "sample:" + rng.choice(["lpod_styles.odt", "span_style.odt", "md_style.odt", "example.odt", "background.odp", "example.odp", "frame_image.odp"], "msrc")
         return op
 
@@ -292,6 +303,8 @@ class DocEngine:
             self.stats.transitions.add(("init", op["source"].split(":")[0], op.get("how", "-")))
             return self._after_open(op)
         handler = getattr(self, "_op_" + name)
+        if self.prop == "C10" and name not in ("clone_doc",):
+            return self._step_c10(op, handler)
         try:
             vs = handler(op)
         except HarnessError:
@@ -299,6 +312,172 @@ class DocEngine:
         self.stats.transitions.add((name, self.sut.src["kind"], tuple(sorted(self.flags)), op.get("packaging"), op.get("target"), op.get("kind"), op.get("part")))
         self.stats.states.add(self.state_digest())
         return vs or []
+
+    # ---- C10, document leg: two twins, interleaved histories --------------------------
+    def _step_c10(self, op, handler):
+        name = op["op"]
+        on_twin = op.get("on") == "twin" and self.twin is not None
+        if name == "reopen":
+            # the restart replaces the primary; the twin relation ends
+            self.twin = None
+        active, other = (self.twin, self.sut) if on_twin else (self.sut, self.twin)
+        snap = None
+        if other is not None and name not in ("touch",):
+            try:
+                snap = self._memory(other)
+            except Exception:
+                snap = None
+        saved = self.sut
+        self.sut = active
+        try:
+            vs = handler(op) or []
+        finally:
+            self.sut = saved
+        if other is not None:
+            self.n_twin_ops += 1
+        self.stats.transitions.add((name, "twin" if on_twin else "orig", self.sut.src["kind"], op.get("packaging"), op.get("kind"), op.get("part")))
+        self.stats.states.add(self.state_digest())
+        if vs:
+            return vs
+        if snap is not None:
+            try:
+                now = self._memory(other)
+            except Exception as e:
+                return [Violation("C10", "twin-unreadable", name, self._feats() + ["on_twin" if on_twin else "on_orig"], type(e).__name__, f"{type(e).__name__}: {e}")]
+            d = self._mem_diff(snap, now)
+            if d is None and set(now) != set(snap):
+                d = f"parts appeared in the untouched twin: {sorted(set(now) - set(snap))[:3]}"
+            if d:
+                return [Violation("C10", "twin-changed", name, self._feats() + ["on_twin" if on_twin else "on_orig"], None, "the untouched twin changed: " + d)]
+        return []
+
+    def _op_clone_doc(self, op):
+        if self.twin is not None:
+            return []
+        sut = self.sut
+        try:
+            before = self._memory(sut)
+        except Exception:
+            return []
+        unread = [n for n in sut.store.names() if n not in sut.store.over and n not in sut.store.touched]
+        res, exc = self._call(lambda: sut.doc.clone, "clone")
+        self._outcome = f"clone_doc:{'exc' if exc else 'ok'}"
+        feats = self._feats()
+        if exc is not None:
+            return [Violation("C10", "clone-raises", "clone_doc", feats, type(exc).__name__, f"{type(exc).__name__}: {exc}")]
+        self.stats.probe("clone_doc")
+        if "edited" in self.flags or self.n_edits:
+            self.stats.probe("clone_after_unsaved_edit")
+        tw = ds.DocSUT(self.scratch)
+        tw.counter = 1000
+        tw.doc = res
+        st = ds.PartStore()
+        st.mimetype = sut.store.mimetype
+        for n in sut.store.names():
+            st.base[n] = b"" if n.endswith("/") else before.get(n, sut.store.current(n))
+        tw.store = st
+        tw.src = {"kind": "clone", "path": None, "packaging": "zip"}
+        self.twin = tw
+        after = self._memory(sut)
+        d = self._mem_diff(before, after)
+        if d:
+            return [Violation("C10", "clone-modified-original", "clone_doc", feats, None, d)]
+        try:
+            born = self._memory(tw)
+        except Exception as e:
+            return [Violation("C10", "twin-unreadable", "clone_doc", feats + ["at_birth"], type(e).__name__, f"{type(e).__name__}: {e}")]
+        d = self._mem_diff(before, born)
+        if d is None and set(born) != set(before):
+            d = f"part lists differ: {sorted(set(born) ^ set(before))[:3]}"
+        if d:
+            return [Violation("C10", "clone-differs-at-birth", "clone_doc", feats, None, d)]
+        return []
+
+    def _op_twin_save_over_source(self, op):
+        """the clone is saved onto the very file the original was (lazily) opened from"""
+        if self.twin is None or not self.sut.src.get("path") or self.sut.src["packaging"] != "zip":
+            return []
+        path = self.sut.src["path"]
+        for a in self.artifacts:
+            if a.get("path") == path:
+                a["dead"] = True
+        res, exc = self._call(lambda: self.twin.doc.save(path), "save")
+        self._outcome = f"twin_save_over_source:{'exc' if exc else 'ok'}"
+        self.twin.store.touched |= {"meta.xml", ds.MANIFEST}
+        self.stats.probe("clone_saved_over_source_of_original")
+        self.flags.add("source_overwritten_by_clone")
+        return []
+
+    def _op_clone_part(self, op):
+        from odfdo import Element
+
+        doc, st = self.sut.doc, self.sut.store
+        name = ds.SHORT[op["part"]]
+        try:
+            part = doc.get_part(op["part"])
+            a0 = part.serialize()
+            st.touched.add(name)
+            b = part.clone
+        except Exception as e:
+            self.stats.probe("clone_part_raised")
+            return []
+        self._outcome = "clone_part"
+        self.stats.probe("clone_part")
+        feats = self._feats() + ["part:" + op["part"]]
+        if part.serialize() != a0:
+            return [Violation("C10", "clone-modified-original", "clone_part", feats, None, "XmlPart.clone changed the original part")]
+        try:
+            b0 = b.serialize()
+        except Exception as e:
+            return [Violation("C10", "twin-unreadable", "clone_part", feats + ["at_birth"], type(e).__name__, str(e))]
+        if xmlref.c14n(b0) != xmlref.c14n(a0):
+            return [Violation("C10", "clone-differs-at-birth", "clone_part", feats, None, f"serialisation of the XmlPart clone differs from the original ({len(b0)} vs {len(a0)} bytes)")]
+        # edit the clone: the original must not notice; then the reverse
+        try:
+            b.root.append(Element.from_tag(f'<text:p xmlns:text="urn:oasis:names:tc:opendocument:xmlns:text:1.0">clone edit {op["n"]}</text:p>'))
+        except Exception:
+            return []
+        if part.serialize() != a0:
+            return [Violation("C10", "twin-changed", "clone_part", feats + ["mutated_clone"], None, "editing the XmlPart clone changed the original")]
+        b1 = b.serialize()
+        try:
+            part.root.append(Element.from_tag(f'<text:p xmlns:text="urn:oasis:names:tc:opendocument:xmlns:text:1.0">orig edit {op["n"]}</text:p>'))
+        except Exception:
+            return []
+        self.n_edits += 1
+        if b.serialize() != b1:
+            return [Violation("C10", "twin-changed", "clone_part", feats + ["mutated_original"], None, "editing the original changed the XmlPart clone")]
+        return []
+
+    def _op_clone_container(self, op):
+        doc, st = self.sut.doc, self.sut.store
+        c = doc.container
+        res, exc = self._call(lambda: c.clone, "clone")
+        self._outcome = f"clone_container:{'exc' if exc else 'ok'}"
+        feats = self._feats()
+        if exc is not None:
+            return [Violation("C10", "clone-raises", "clone_container", feats, type(exc).__name__, str(exc))]
+        self.stats.probe("clone_container")
+        names = [n for n in st.names() if not n.endswith("/") and n not in st.touched and n != ds.RDF]
+        for n in names:
+            try:
+                x, y = c.get_part(n), res.get_part(n)
+            except Exception as e:
+                return [Violation("C10", "twin-unreadable", "clone_container", feats + ["at_birth"], type(e).__name__, f"{n}: {e}")]
+            if x != y:
+                return [Violation("C10", "clone-differs-at-birth", "clone_container", feats, None, f"{n} differs in the container clone")]
+        # independence both ways
+        res.set_part("Extra/only-in-clone.bin", b"x")
+        if names:
+            res.set_part(names[0], b"changed in clone")
+            if c.get_part(names[0]) == b"changed in clone":
+                return [Violation("C10", "twin-changed", "clone_container", feats + ["mutated_clone"], None, f"set_part on the clone changed {names[0]} in the original")]
+        try:
+            c.get_part("Extra/only-in-clone.bin")
+            return [Violation("C10", "twin-changed", "clone_container", feats + ["mutated_clone"], None, "a part added to the clone appeared in the original")]
+        except Exception:
+            pass
+        return []
 
     def _after_open(self, op):
         """baseline of the freshly opened source (C04 false-alarm guard): what
@@ -454,10 +633,11 @@ class DocEngine:
         return []
 
     # ---- C11: the same state saved under several configurations -------------------
-    def _memory(self):
+    def _memory(self, sut=None):
         """the in-memory document through the public API: serialisation of the
         five standard XML parts (this parses them) + bytes of the other parts"""
-        doc, st = self.sut.doc, self.sut.store
+        sut = sut or self.sut
+        doc, st = sut.doc, sut.store
         mem = {}
         for n in ds.STD_XML:
             if n in st.names():
